@@ -213,35 +213,25 @@ func (b *raftBackend) Set(args setArgs) (bool, error) {
 }
 
 func (b *raftBackend) Del(keys [][]byte) (int64, error) {
+	keys = uniqueKeys(keys) // DEL k k removes (and counts) k once
 	if len(keys) == 0 {
 		return 0, nil
 	}
-	version, err := b.reserveTimestamp(1)
+	// MGet applies the TTL records, so expired keys are not counted.
+	vals, err := b.MGet(keys)
 	if err != nil {
 		return 0, err
 	}
-
-	resps, err := b.batchGetWithRetry(keys, version)
-	if err != nil {
-		return 0, err
-	}
-
 	mutations := make([]*pb.Mutation, 0, len(keys)*2)
 	var removed int64
-	for _, key := range keys {
-		resp := resps[string(key)]
-		if resp != nil && !resp.GetNotFound() && resp.GetError() == nil {
+	for i, key := range keys {
+		if vals[i] != nil && vals[i].Found {
 			removed++
 		}
-		valueKey := append([]byte(nil), key...)
-		metaKey := ttlMetaKey(key)
 		mutations = append(mutations,
-			&pb.Mutation{Op: pb.Mutation_Delete, Key: valueKey},
-			&pb.Mutation{Op: pb.Mutation_Delete, Key: metaKey},
+			&pb.Mutation{Op: pb.Mutation_Delete, Key: append([]byte(nil), key...)},
+			&pb.Mutation{Op: pb.Mutation_Delete, Key: ttlMetaKey(key)},
 		)
-	}
-	if len(mutations) == 0 {
-		return removed, nil
 	}
 	if err := b.mutate(append([]byte(nil), keys[0]...), mutations...); err != nil {
 		return 0, err
@@ -290,9 +280,16 @@ func (b *raftBackend) MSet(pairs [][2][]byte) error {
 		return nil
 	}
 	mutations := make([]*pb.Mutation, 0, len(pairs)*2)
-	for _, pair := range pairs {
+	last := make(map[string]int, len(pairs))
+	for i, pair := range pairs {
+		last[string(pair[0])] = i
+	}
+	for i, pair := range pairs {
 		if len(pair[0]) == 0 {
 			return fmt.Errorf("empty key")
+		}
+		if last[string(pair[0])] != i {
+			continue // MSET k a k c: the last pair wins, one mutation per key
 		}
 		// Write value and clear TTL metadata for every key in a single mutate call.
 		valueKey := append([]byte(nil), pair[0]...)
